@@ -360,6 +360,14 @@ func init() {
 			}
 			return ret1(st, x.tf.UF("uf_"+strArg(args[1]), SBV(64), ts...))
 		},
+		// UFF9: uninterpreted float-valued function of nine floats
+		"UFF9": func(x *Exec, st *State, fr *Frame, args []Value, site ssa.Instruction) []Result {
+			var ts []*Term
+			for _, a := range args[2:] {
+				ts = append(ts, a.(*Term))
+			}
+			return ret1(st, x.tf.FFun("uf_"+strArg(args[1]), ts...))
+		},
 		"Stream": func(x *Exec, st *State, fr *Frame, args []Value, site ssa.Instruction) []Result {
 			return ret1(st, &SliceV{})
 		},
